@@ -449,7 +449,9 @@ class ExcelCompiler:
 
         cell_or_range = self.cell_map[address]
 
-        if cell_or_range.value != value:  # pragma: no branch
+        old_value = cell_or_range.value
+        if (old_value != value or
+                type(old_value) is not type(value)):  # pragma: no branch
             # need to be able to 'set' an empty cell, set to not None
             cell_or_range.value = value
 
